@@ -149,6 +149,9 @@ def check(pid, tier, seed):
         fd = next((r for r in recs if r.get("e") == "Fds"), None)
         if fd and fd["f1"] > fd["f0"] and fd["f2"] > fd["f1"] and prob is None:
             prob = "(tree): every round of exists/isFile/isDirectory/size/listChildren over the tree leaves more descriptors open (%d -> %d -> %d): a tree large enough exhausts them and the answers stop agreeing with the file system" % (fd["f0"], fd["f1"], fd["f2"])
+        em = next((r for r in recs if r.get("e") == "Empty"), None)
+        if em and (em["exists"] or em["file"] or em["dir"] or em["abs"]) and prob is None:
+            prob = "(empty path): exists/isFile/isDirectory/isAbsolute = %s/%s/%s/%s for the empty path, the file system has no such entry" % (em["exists"], em["file"], em["dir"], em["abs"])
         m = next((r for r in recs if r.get("e") == "Missing"), None)
         if prob is None and m is not None and (m["exists"] or m["file"] or m["dir"] or not m["size_throws"]):
             prob = "a missing entry: exists=%s isFile=%s isDirectory=%s size() throws NotFound=%s" % (m["exists"], m["file"], m["dir"], m["size_throws"])
